@@ -91,6 +91,56 @@ def small_ints(v):
     if isinstance(v, dict): return all(small_ints(x) for x in v.values())
     return True
 
+def _union_declared_twice(doc, schema, fuel=40):
+    """the mechanism of C02-allof-union-remerge, on the SCHEMA: somewhere in it an allOf two members of which declare one member
+    (directly or one object level down) with a schema that holds a oneOf / anyOf of two or more object branches AND, inside
+    those branches, a type list or another anyOf / oneOf (what keeps `roughly` from recognising the merge as the original)"""
+    import gen
+    def deref(x, n=6):
+        while isinstance(x, dict) and isinstance(x.get("$ref"), str) and n > 0:
+            try: x = gen.resolve_ref(doc, x["$ref"])
+            except Exception: return None
+            n -= 1
+        return x
+    def unions(x, n=8):
+        """the unions of object branches inside x"""
+        if n <= 0 or not isinstance(x, (dict, list)): return
+        if isinstance(x, list):
+            for y in x: yield from unions(y, n - 1)
+            return
+        for k in ("oneOf", "anyOf"):
+            brs = x.get(k)
+            if isinstance(brs, list) and sum(1 for b in brs if isinstance(deref(b), dict) and (deref(b).get("type") == "object" or "properties" in deref(b))) >= 2:
+                yield brs
+        for k, v in x.items():
+            if k not in ("default", "enum", "const", "examples"): yield from unions(v, n - 1)
+    def awkward(brs):
+        t = json.dumps(brs)
+        return '"type": [' in t or '"anyOf"' in t or '"oneOf"' in t
+    def member_decls(m, depth):
+        """(path, schema) of the members an allOf member declares, down to `depth` object levels"""
+        m = deref(m)
+        if not isinstance(m, dict): return
+        for pn, ps in (m.get("properties") or {}).items():
+            yield (pn,), ps
+            if depth > 0:
+                for path, sub in member_decls(ps, depth - 1): yield (pn,) + path, sub
+    def walk(x, n):
+        if n <= 0 or not isinstance(x, (dict, list)): return False
+        if isinstance(x, list): return any(walk(y, n - 1) for y in x)
+        if isinstance(x.get("allOf"), list) and len(x["allOf"]) >= 2:
+            seen = {}
+            for m in x["allOf"]:
+                for path, ps in member_decls(m, 1):
+                    if any(awkward(b) for b in unions(ps)): seen[path] = seen.get(path, 0) + 1
+            if any(v >= 2 for v in seen.values()): return True
+        r = x.get("$ref")
+        if isinstance(r, str):
+            t = deref(x)
+            if t is not None and walk({k: v for k, v in t.items()} if isinstance(t, dict) else t, n - 1): return True
+        return any(walk(v, n - 1) for k, v in x.items() if k not in ("default", "enum", "const", "examples", "definitions", "$defs"))
+    return walk(schema, fuel)
+
 def attribute(fd_list, doc, key, schema, value, dump, answer=""):
     """attribute an implementation failure to a listed finding by its mechanism predicate"""
     txt = json.dumps(schema) + json.dumps(doc.get("definitions", {}))
@@ -130,6 +180,8 @@ def attribute(fd_list, doc, key, schema, value, dump, answer=""):
                 if isinstance(v, list): return any(hit2(x) for x in v)
                 return False
             if pairs and hit2(value): return fd
+        if fd["id"] == "C02-allof-union-remerge" and _union_declared_twice(doc, schema):
+            return fd
         if fd["id"] == "C02-native-default-panic" and answer == "panic" and '"format"' in txt and '"default"' in txt:
             return fd
         if fd["id"] == "C02-uint-format" and ('"uint"' in txt or '"int"' in txt):
